@@ -206,7 +206,9 @@ func (u *Unmarshaler) fillSlice(fieldType reflect.Type, value reflect.Value, map
 				conv.Index(i).Set(target.Elem())
 			}
 		case reflect.Slice:
-			if err := u.fillSlice(dereffedBaseType, conv.Index(i), ithValue); err != nil {
+			// 元素是指向切片的指针时先分配，再填充其所指的切片
+			elemType, elem := derefContainer(baseType, conv.Index(i))
+			if err := u.fillSlice(elemType, elem, ithValue); err != nil {
 				return err
 			}
 		default:
@@ -239,9 +241,10 @@ func (u *Unmarshaler) fillSliceFromString(fieldType reflect.Type, value reflect.
 		return errUnsupportedType
 	}
 
-	baseFieldType := Deref(fieldType.Elem())
-	baseFieldKind := baseFieldType.Kind()
-	conv := reflect.MakeSlice(reflect.SliceOf(baseFieldType), len(slice), cap(slice))
+	// 新切片的元素类型须与字段一致（指针元素不能解引用，否则 []int 无法赋给 []*int）
+	elemType := fieldType.Elem()
+	baseFieldKind := Deref(elemType).Kind()
+	conv := reflect.MakeSlice(reflect.SliceOf(elemType), len(slice), cap(slice))
 
 	for i := 0; i < len(slice); i++ {
 		if err := u.fillSliceValue(conv, i, baseFieldKind, slice[i]); err != nil {
